@@ -34,7 +34,7 @@ fn k(i: u32) -> B {
 }
 
 fn sizes() -> [B; 3] {
-	[B::pat(5, 1), B::pat(300, 2), B::pat(9000, 3)]
+	[B::pat(5, 1), B::pat(300, 2), B::pat(40_000, 3)] // the last one is stored as a chain of 4 KiB parts
 }
 
 fn kv_alphabet(keys: u32) -> Vec<Tx> {
@@ -49,7 +49,9 @@ fn kv_alphabet(keys: u32) -> Vec<Tx> {
 }
 
 fn rc_alphabet() -> Vec<Tx> {
-	let fv = |k: &B| B::pat(30 + (k.bytes()[0] % 3) as u32 * 100, fnv(&k.bytes(), 1) as u32);
+	// the second key's value is stored as a chain of parts (releasing it must free every part)
+	let k1 = k(1).bytes();
+	let fv = move |k: &B| B::pat(if k.bytes() == k1 { 40_000 } else { 30 + (k.bytes()[0] % 3) as u32 * 100 }, fnv(&k.bytes(), 1) as u32);
 	let mut a = vec![];
 	for i in 0..2 {
 		a.push(vec![(0u8, Op::Set(k(i), fv(&k(i))))]);
